@@ -134,7 +134,7 @@ func (w *worker) run(sp Spec) Trace {
 			return Trace{ID: sp.ID, Error: "bad trace: " + err.Error()}
 		}
 		return tr
-	case <-time.After(watchdog):
+	case <-time.After(watchdog * time.Duration(max(1, sp.Patience))):
 		w.stop()
 		return Trace{ID: sp.ID, Hang: true}
 	}
